@@ -1,6 +1,7 @@
 package main
 
 import (
+	"runtime/debug"
 	"fmt"
 	"reflect"
 	"strings"
@@ -1126,4 +1127,28 @@ func stretchWs(r *Rand, in string) string {
 		run = strings.Repeat(" \t", r.Range(128, 160))
 	}
 	return in[:s] + run + in[e:]
+}
+
+// panicInLibrary: the innermost non-runtime frame of the panic being recovered lies in the
+// library under test (not in the harness or the simulator runtime). Must be called from the
+// deferred function that recovered.
+func panicInLibrary() bool {
+	lines := strings.Split(string(debug.Stack()), "\n")
+	at := -1
+	for i, l := range lines {
+		if strings.HasPrefix(l, "panic(") {
+			at = i
+		}
+	}
+	if at < 0 {
+		return false
+	}
+	for i := at + 2; i < len(lines); i += 2 {
+		fn := lines[i]
+		if strings.HasPrefix(fn, "runtime.") || strings.HasPrefix(fn, "runtime/") {
+			continue
+		}
+		return strings.HasPrefix(fn, "github.com/opsidian/parsley/") && !strings.Contains(fn, "/zzsimrt.")
+	}
+	return false
 }
